@@ -4,11 +4,24 @@ package main
 
 import (
 	"fmt"
+	"log/slog"
+	"net/http"
+	"net/url"
+	"syscall"
 	"time"
 
+	digest "github.com/opencontainers/go-digest"
+	"github.com/spf13/cobra"
+
+	"github.com/olareg/olareg"
 	"github.com/olareg/olareg/config"
+	"github.com/olareg/olareg/internal/verifenv/vclock"
 	"github.com/olareg/olareg/internal/verifenv/vh"
 	"github.com/olareg/olareg/internal/verifenv/vhook"
+	"github.com/olareg/olareg/internal/verifenv/vhttp"
+	"github.com/olareg/olareg/internal/verifenv/vos"
+	"github.com/olareg/olareg/internal/verifenv/vrand"
+	"github.com/olareg/olareg/internal/verifenv/vsig"
 )
 
 // VH_C19_Flags: (*serveOpts).run with every option symbolic, up to olareg.New.
@@ -78,4 +91,109 @@ func VH_C19_Flags() {
 		*c.API.Referrer.Enabled == o.apiReferrer && *c.Storage.ReadOnly == o.storeRO && *c.Storage.GC.Untagged == o.gcUntagged &&
 		*c.Storage.GC.ReferrersDangling == o.gcRefDangling && *c.Storage.GC.ReferrersWithSubj == o.gcRefWithSubject, "C19.explicit-flag-overridden-by-default")
 	vh.Cover("C19.flags-end")
+}
+
+// VH_C19_Signal: the serve command from its flags to its return.  (*serveOpts).run is
+// executed with the real olareg.New, Server.Run and Server.Shutdown; the listener is the
+// model server (vhttp.Server: ListenAndServe blocks until Shutdown) and signals are
+// delivered by the harness (vsig).  Symbolic: what stops the server (SIGINT, SIGTERM, the
+// command context), the store type, TLS files set or not, background collection on or
+// off, whether something was pushed first.  Claimed: the command returns nil, the
+// listener was shut down, the store was closed, and (directory store) a new server on
+// the same directory serves what was acknowledged.  The signal arrives at a quiescent
+// point (listener up, no request in flight); a signal racing with start-up is outside.
+func VH_C19_Signal() {
+	vhook.Captured, vhook.Server, vhook.Continue = nil, nil, true
+	defer func() { vhook.Continue, vhook.Adjust = false, nil }()
+	vos.Reset()
+	vclock.Reset()
+	vrand.Reset()
+	vsig.Reset()
+	vhttp.ResetServers()
+	vos.PutDir("/r", vclock.Last())
+	storeType := vh.Str("storeType", "dir", "mem")
+	tls := vh.Bool("tls")
+	gcOn := vh.Bool("gcOn")
+	how := vh.Choice("stop", 3)
+	vh.Tag("stop", []string{"SIGINT", "SIGTERM", "context"}[how])
+	push := vh.Bool("pushFirst")
+	o := &serveOpts{
+		root:             &rootOpts{log: slog.Default()},
+		addr:             "127.0.0.1",
+		port:             5000,
+		storeType:        storeType,
+		storeDir:         "/r",
+		apiPush:          true,
+		apiReferrer:      true,
+		gcFreq:           -1,
+		gcGracePeriod:    time.Hour,
+		gcRefWithSubject: true,
+	}
+	if tls {
+		o.tlsCert, o.tlsKey = "c.pem", "k.pem"
+	}
+	if gcOn {
+		o.gcFreq = time.Minute
+	}
+	cmd := &cobra.Command{}
+	var pctx *vhttp.Ctx
+	if how == 2 {
+		pctx = vhttp.NewCtx()
+		cmd.SetContext(pctx)
+	}
+	var err error
+	returned := false
+	vh.Go(func() {
+		err = o.run(cmd, nil)
+		returned = true
+	})
+	vh.Sched()
+	vh.Assert(!returned, "C19.serve-returned-before-stop")
+	vh.Assert(vhook.Server != nil && len(vhttp.Servers) == 1 && vhttp.Servers[0].Listening, "C19.serve-not-listening")
+	hs := vhttp.Servers[0]
+	vh.Assert(hs.Addr == "127.0.0.1:5000" && hs.TLS == tls && (!tls || (hs.CertFile == "c.pem" && hs.KeyFile == "k.pem")), "C19.listener-settings")
+	blob := []byte("{}")
+	bd := digest.Canonical.FromBytes(blob)
+	man := []byte(`{"schemaVersion":2,"mediaType":"application/vnd.oci.image.manifest.v1+json","config":{"mediaType":"application/vnd.oci.image.config.v1+json","digest":"` + bd.String() + `","size":2},"layers":[]}`)
+	if push {
+		r := hs.Deliver(vhttp.Request("POST", "/v2/a/blobs/uploads/", url.Values{"digest": {bd.String()}}, nil, blob, int64(len(blob))))
+		vh.Assert(r.Status() == 201, "C19.serve-push-blob")
+		r = hs.Deliver(vhttp.Request("PUT", "/v2/a/manifests/t", nil, http.Header{"Content-Type": {"application/vnd.oci.image.manifest.v1+json"}}, man, int64(len(man))))
+		vh.Assert(r.Status() == 201, "C19.serve-push-manifest")
+		vh.Cover("C19.signal-after-push")
+	}
+	vh.Assert(vsig.Registered(vsig.Interrupt) >= 1 && vsig.Registered(syscall.SIGTERM) >= 1, "C19.signal-not-registered")
+	switch how {
+	case 0:
+		vsig.Deliver(vsig.Interrupt)
+	case 1:
+		vsig.Deliver(syscall.SIGTERM)
+	case 2:
+		pctx.Cancel()
+	}
+	vh.Join()
+	vh.Assert(returned, "C19.serve-did-not-return")
+	vh.Assert(err == nil, "C19.serve-returned-error-on-clean-stop")
+	vh.Assert(hs.Shut && !hs.Listening, "C19.listener-not-shut-down")
+	// the store was closed by the shutdown: closing it again is refused
+	vh.Assert(vhook.Server.Close() != nil, "C19.store-not-closed-by-shutdown")
+	for _, t := range vclock.Tickers() {
+		vh.Assert(t.Stopped(), "C19.collection-ticker-left-running")
+	}
+	// a request after the shutdown gets an answer (no panic, no hang)
+	rec := vhttp.Serve(vhook.Server, vhttp.Request("GET", "/v2/", nil, nil, nil, 0))
+	vh.Assert(!rec.Panicked, "C19.request-after-shutdown-panics")
+	if push && storeType == "dir" {
+		// storage intact: a new server on the same directory serves the acknowledged push
+		conf := *vhook.Captured
+		conf.Storage.GC.Frequency = -1
+		s2 := olareg.New(conf)
+		g := vhttp.Serve(s2, vhttp.Request("GET", "/v2/a/manifests/t", nil, http.Header{"Accept": {"application/vnd.oci.image.manifest.v1+json"}}, nil, 0))
+		vh.Assert(g.Status() == 200 && string(g.Body) == string(man), "C19.storage-not-intact-after-stop")
+		g = vhttp.Serve(s2, vhttp.Request("GET", "/v2/a/blobs/"+bd.String(), nil, nil, nil, 0))
+		vh.Assert(g.Status() == 200 && string(g.Body) == string(blob), "C19.storage-not-intact-after-stop")
+		_ = s2.Close()
+		vh.Cover("C19.storage-intact")
+	}
+	vh.Cover("C19.signal-end")
 }
